@@ -408,26 +408,31 @@ WRAPPED = {}
 for _ln in LAYOUTS:
     _T = TY[('s', _ln)]
     WRAPPED[_ln] = (make_converter(t.Optional[_T]), make_converter(t.Union[int, _T, str]), make_converter(t.Dict[str, t.Optional[_T]]),
-                    make_converter(t.Tuple[t.Optional[_T], int]))
+                    make_converter(t.Tuple[t.Optional[_T], int]), make_converter(t.Optional[t.List[_T]]),
+                    make_converter(t.Union[int, t.Dict[str, _T]]))
 make_converter(WHold)
 
 
 def unwrap(wk, d):
     if wk <= 1:
         return True, d
-    elif wk == 2:
+    elif wk == 2 or wk == 6:
         if not isinstance(d, dict) or list(d.keys()) != ['k']:
             return False, None
         return True, d['k']
+    elif wk == 5:
+        if not isinstance(d, list) or len(d) != 1:
+            return False, None
+        return True, d[0]
     else:
         if not isinstance(d, (tuple, list)) or len(d) != 2:
             return False, None
         return True, d[0]
 
 
-@obligation(pre="0 <= ln <= 2 and 0 <= wk <= 4 and 1 <= tk <= 3", witnesses=(0,), timeout=200)
+@obligation(pre="0 <= ln <= 2 and 0 <= wk <= 6 and 1 <= tk <= 3", witnesses=(0,), timeout=200)
 def body_wrapped(ln: int, wk: int, tk: int, i: int) -> int:
-    """a tagged union inside Optional / Union / Dict / Tuple / a dataclass field is written in ITS layout, and what is written reads back"""
+    """a tagged union inside Optional / Union / Dict / Tuple / a dataclass field (wk 0-4), and inside a container that is itself a union member (wk 5, 6), is written in ITS layout, and what is written reads back"""
     l = 'int' if ln == 0 else ('ext' if ln == 1 else 'adj')
     cls = variant_of('s', tk)
     x = cls.make_unchecked(a='q') if cls is VY else cls.make_unchecked(a=i)
@@ -443,8 +448,8 @@ def body_wrapped(ln: int, wk: int, tk: int, i: int) -> int:
                 if not shape_ok('s', l, cls, d['l_ext'][0]) or d['l_ext'][1] is not None or not eqv(back.l_ext, [x, None]):
                     return 7
         else:
-            conv = WRAPPED[l][0] if wk == 0 else (WRAPPED[l][1] if wk == 1 else (WRAPPED[l][2] if wk == 2 else WRAPPED[l][3]))
-            v = x if wk <= 1 else ({'k': x} if wk == 2 else (x, 1))
+            conv = WRAPPED[l][0] if wk == 0 else (WRAPPED[l][1] if wk == 1 else (WRAPPED[l][2] if wk == 2 else (WRAPPED[l][3] if wk == 3 else (WRAPPED[l][4] if wk == 5 else WRAPPED[l][5]))))
+            v = x if wk <= 1 else ({'k': x} if (wk == 2 or wk == 6) else ((x, 1) if wk == 3 else [x]))
             d = conv.into_data(v)
             ok, inner = unwrap(wk, d)
             if not ok:
@@ -467,7 +472,7 @@ def body_wrapped(ln: int, wk: int, tk: int, i: int) -> int:
 
 
 for _ln in range(3):
-    for _wk in range(5):
+    for _wk in range(7):
         for _tk in (1, 2, 3):
             try:
                 body_wrapped(_ln, _wk, _tk, 1)
